@@ -67,6 +67,7 @@ func goEnv() []string {
 
 type built struct {
 	dir   string
+	seq32 string // worker built for GOARCH=386 (properties with Arch386)
 	seqw  string
 	sched string
 	race  string
@@ -132,8 +133,18 @@ func plainOverlay(b *built, mut string) (string, error) {
 	return path, os.WriteFile(path, data, 0o644)
 }
 
+// buildSeq32 builds the worker for the checks that run as a 32-bit program.
+func buildSeq32(b *built) error {
+	b.seq32 = filepath.Join(b.dir, "seqw386")
+	return buildSeqTo(b, b.seq32, "./cmd/seqw386", "GOARCH=386", "CGO_ENABLED=0")
+}
+
 func buildSeq(b *built) error {
 	b.seqw = filepath.Join(b.dir, "seqw")
+	return buildSeqTo(b, b.seqw, "./cmd/seqw")
+}
+
+func buildSeqTo(b *built, outPath, pkg string, env ...string) error {
 	args := []string{"build", "-tags", "verif"}
 	mut, err := mutatedRepo(b)
 	if err != nil {
@@ -146,13 +157,13 @@ func buildSeq(b *built) error {
 		}
 		args = append(args, "-overlay", ov)
 	}
-	args = append(args, "-o", b.seqw, "./cmd/seqw")
+	args = append(args, "-o", outPath, pkg)
 	cmd := exec.Command("go", args...)
 	cmd.Dir = root
-	cmd.Env = goEnv()
+	cmd.Env = append(goEnv(), env...)
 	out, err := cmd.CombinedOutput()
 	if err != nil {
-		return fmt.Errorf("building seqw: %v\n%s", err, out)
+		return fmt.Errorf("building %s: %v\n%s", pkg, err, out)
 	}
 	return nil
 }
@@ -328,6 +339,18 @@ func cmdRun(args []string) int {
 		}
 		for _, id := range ids {
 			jobsList = append(jobsList, unitJob{b.seqw, id})
+		}
+	}
+	if spec.Arch386 {
+		if err := buildSeq32(b); err != nil {
+			return engineError("%v", err)
+		}
+		ids, err := listUnits(b.seq32, prop, *tier)
+		if err != nil {
+			return engineError("%v", err)
+		}
+		for _, id := range ids {
+			jobsList = append(jobsList, unitJob{b.seq32, id})
 		}
 	}
 	if spec.Sched {
@@ -588,6 +611,9 @@ func trimUnits(u []map[string]interface{}) []map[string]interface{} {
 
 func workerFor(b *built, unit string, spec propSpec) string {
 	segs := strings.SplitN(unit, "/", 3)
+	if len(segs) >= 2 && segs[1] == "arch386" && b.seq32 != "" {
+		return b.seq32
+	}
 	if len(segs) >= 2 {
 		if strings.HasSuffix(segs[0], "R") && b.race != "" {
 			return b.race
@@ -656,6 +682,11 @@ func cmdReplay(args []string) int {
 	isRace := strings.HasSuffix(strings.SplitN(v.Unit, "/", 2)[0], "R")
 	var w string
 	switch {
+	case strings.SplitN(v.Unit, "/", 3)[1] == "arch386":
+		if err := buildSeq32(b); err != nil {
+			return engineError("%v", err)
+		}
+		w = b.seq32
 	case isRace:
 		if err := buildSched(b, true); err != nil {
 			return engineError("%v", err)
@@ -695,6 +726,9 @@ func cmdSetup() int {
 	b := &built{dir: dir}
 	defer b.cleanup()
 	if err := buildSeq(b); err != nil {
+		return engineError("%v", err)
+	}
+	if err := buildSeq32(b); err != nil {
 		return engineError("%v", err)
 	}
 	if schedAvailable {
